@@ -23,6 +23,8 @@ def judge(vec, asg):
         return "constructor/scores() raised %s: %s" % (type(e).__name__, e), None, exp
     if not (isinstance(got, tuple) and len(got) == 1):
         return "scores() is not a 1-tuple: %r" % (got,), got, exp
+    if "-" in repr(got):
+        return "the score is negative (or negative zero): %r" % (got,), got, exp
     if got[0] is None or got[0] != exp / 10.0:
         return "score %r, specification algorithm gives %r" % (got[0], exp / 10.0), got, exp
     if obj.base_score != got[0]:
@@ -53,10 +55,10 @@ def visit(acc, blk, vec, asg, idx):
 def blocks(tier):
     if tier == "thorough":
         return spaces.v4_blocks("thorough", "short") + spaces.v4_blocks("quick", "override") + \
-            spaces.v4_xmod_blocks(("mid", "mid")) + [spaces.interaction_block("4.0", tier)]
+            spaces.v4_xmod_blocks(("mid", "mid")) + [spaces.interaction_block("4.0", tier), spaces.layout_block("4.0")]
     return spaces.v4_blocks("quick", "short", ("mid", "mid")) + \
         spaces.v4_blocks("quick", "override", ("min", "mid")) + spaces.v4_xmod_blocks(("mid", "mid")) + \
-        [spaces.interaction_block("4.0", tier)]
+        [spaces.interaction_block("4.0", tier), spaces.layout_block("4.0")]
 
 
 def run(ctx, res):
